@@ -99,7 +99,7 @@ func runMutant(id, patch string) (failed []string, errs []string, err error) {
 	work := filepath.Join(verifDir, ".work", fmt.Sprintf("%s-mutant-%d", id, os.Getpid())) // concurrent runs must not share query files
 	os.RemoveAll(work)
 	defer os.RemoveAll(work)
-	cfg := &SolverCfg{WorkDir: work, Timeout: 30e9, Parallel: 16, NoPatient: true}
+	cfg := &SolverCfg{WorkDir: work, Timeout: 30e9, Parallel: 16, NoPatient: true, CacheDir: mutantCacheDir()}
 	stats := &solverStats{byBack: map[string]int{}}
 	solveAll(cfg, all, stats)
 	for _, o := range all {
@@ -179,4 +179,16 @@ func runSelftest(ld *Loaded, id string, verbose bool) thoroughResult {
 		res.replay = p
 	}
 	return res
+}
+
+// mutantCacheDir: mutant runs reuse the verdicts of queries whose text is identical to one
+// already decided (nearly all of them: a patch changes a few functions). Development tooling
+// only - ./check never uses a cache.
+func mutantCacheDir() string {
+	d := filepath.Join(scratchRoot(), "vcgen-query-cache")
+	if os.Getenv("VCGEN_NO_CACHE") != "" {
+		return ""
+	}
+	os.MkdirAll(d, 0o755)
+	return d
 }
